@@ -4,7 +4,7 @@ import IofloModel.Drv.Proto
 driver for the idle-timeout model (engine `idle`, C28)
 
   reset <orig|fixed> <tls 0|1> <valet|porter> <T>
-  tick <d> | arrive | connects | rx <id> <n> | eof <id> | tx <id> <n> | txb <id> <n>
+  tick <d> (servant's store) | ticka <d> (the HTTP server's own store) | arrive | connects | rx <id> <n> | eof <id> | tx <id> <n> | txb <id> <n>
   cp <id> <10|11|xx> <close 0|1> <keepalive 0|1> <chunked 0|1> <length 0|1>
   req <id> <n> <10|11|xx> <close> <keepalive> <chunked> <length>     (n bytes of request arrive and the head is parsed)
 reply (every op): `now=<t> conns=<id:timeout:stop:cutoff:persisted,…> closed=<id:at:cutoff,…>`
@@ -48,6 +48,7 @@ def step (st : Option State) (line : String) : Option State × String :=
     | some v, some tls, some f, some t => (some (init v tls f t), "ok")
     | _, _, _, _ => (st, "bad-op")
   | ["tick", d] => match d.toNat? with | some d => apply st (.tick d) | none => (st, "bad-op")
+  | ["ticka", d] => match d.toNat? with | some d => apply st (.tickApp d) | none => (st, "bad-op")
   | ["arrive"] => apply st .arrive
   | ["connects"] => apply st .serviceConnects
   | ["rx", i, n] => match i.toNat?, n.toNat? with | some i, some n => apply st (.rx i n) | _, _ => (st, "bad-op")
